@@ -155,7 +155,10 @@ class M(Model):
         if 0 <= fr < self.R and 0 <= fc < self.C:
             fruit[fr, fc] = 1
         want = [bs > 0, head, bs == 1, fruit, bs / max(1.0, bs.max())]
+        full = bool((bs > 0).all())   # no free cell left: where "the fruit" is, is not defined any more
         for i, (name, w) in enumerate(zip(["body", "head", "tail", "fruit", "norm_body_state"], want)):
+            if name == "fruit" and full:
+                continue
             if not np.allclose(g[..., i], np.asarray(w, np.float64), atol=1e-6):
                 out.append((f"grid plane {name} differs from the state", ""))
         if int(obs.step_count) != int(s.step_count):
